@@ -13,10 +13,13 @@ MANIFEST = {
                   "cropStts/cropCtts/cropStsz/cropSdtp/cropStss/cropStsc expand to the k-prefix of the input's expansion, and the "
                   "cropped tables are again consistent (so every C09 theorem applies to the output); k as computed by findTrakEnds is "
                   "the number of samples starting before the track end time. The model is tied to /repo on every run (every k of every "
-                  "generated table, findEndTime/findTrakEnds/fillTrakOutsAndByteRanges on grids). The multi-track mdat layout "
-                  "(fillTrakOutsAndByteRanges) is modelled and checked differentially and by the whole-tool oracle, not proved.",
+                  "generated table, findEndTime/findTrakEnds/fillTrakOutsAndByteRanges on grids). C10_layout: for any number of tracks with "
+                  "arbitrary chunk interleaving the new mdat holds every kept (truncated) chunk's bytes at its new offset, hence every "
+                  "kept sample's bytes. findEndTime is characterised with and without stss (C10_end_time_spec / _nostss).",
     "level_note": "Trusted: Coq kernel, extraction, OCaml/Go glue, hand transcription checked only differentially; box encoding of the "
-                  "output file and header duration arithmetic (writeUptoMdat) are exercised by the whole-tool runs only.",
+                  "output file, updateChunkOffsets (shift by the new moov size), writeMdat (copying the ranges) and the header duration arithmetic "
+                  "(writeUptoMdat) are exercised by the whole-tool runs only; fill_loop termination within the fuel is not proved (the theorem is "
+                  "conditional on the loop returning).",
 }
 
 
